@@ -36,7 +36,7 @@ Init == /\ mods \in (SUBSET Names) \ {{}}
         /\ att \in [mods -> SUBSET (Names \cup {Missing})]
         /\ wrong \in SUBSET {e \in mods \X mods : e[2] \in att[e[1]]}
         /\ fail \in [mods -> {"none", "early", "init"}]
-        /\ polls \in SUBSET mods /\ writes \in SUBSET polls
+        /\ polls \in SUBSET mods /\ writes \in SUBSET mods      \* an unpolled module with configured values still gets a thread for writing them
         /\ phase = [m \in mods |-> "absent"]
         /\ written = {} /\ polled = {} /\ cbdone = {} /\ state = "starting"
         /\ stopped = {} /\ joined = {} /\ shut = {}
@@ -60,7 +60,7 @@ Write(m) == /\ m \in writes /\ m \notin written /\ m \notin polled        \* exa
 FirstPoll(m) == /\ m \in polls /\ phase[m] = "started" /\ (m \in writes => m \in written)
                 /\ polled' = polled \cup {m}
                 /\ UNCHANGED <<cfgvars, phase, written, cbdone, state, stopped, joined, shut>>
-StartedCb(m) == /\ m \in polls /\ m \notin cbdone /\ phase[m] = "started"
+StartedCb(m) == /\ m \in polls \cup writes /\ m \notin cbdone /\ phase[m] = "started"
                 /\ (m \in writes => m \in written)            \* the first round starts with the configured writes
                 /\ cbdone' = cbdone \cup {m}
                 /\ UNCHANGED <<cfgvars, phase, written, polled, state, stopped, joined, shut>>
@@ -68,7 +68,7 @@ StartedCb(m) == /\ m \in polls /\ m \notin cbdone /\ phase[m] = "started"
 (* the node reports ready: healthy configuration, everything started, every poll thread through its first round *)
 Ready == /\ state = "starting" /\ Healthy
          /\ \A m \in mods : phase[m] = "started"
-         /\ polls \subseteq cbdone
+         /\ (polls \cup writes) \subseteq cbdone
          /\ state' = "ready"
          /\ UNCHANGED <<cfgvars, phase, written, polled, cbdone, stopped, joined, shut>>
 (* an unhealthy configuration is refused: no module was started, nothing written to hardware *)
